@@ -573,6 +573,11 @@ pub fn gen_cyclic(rng: &mut Rng, flavor: CycFlavor) -> Program {
             let extra = rng.below(3);
             for _ in 0..extra {
                 let other = *rng.pick(&members);
+                // without recovery only the (input-controlled) ring may close a cycle: extra
+                // edges go forward and never leave the first member
+                if flavor == CycFlavor::NoRecovery && (j == 0 || other <= m) {
+                    continue;
+                }
                 body = if rng.chance(1, 2) {
                     Expr::Or(Box::new(Expr::Call(other)), Box::new(body))
                 } else {
